@@ -452,7 +452,7 @@ func c02R4(c *Ctx, r *Report, e *aliasEngine, fns []*ssa.Function) {
 }
 
 func c02R5(c *Ctx, r *Report, e *aliasEngine, scope map[*ssa.Function]bool, fns []*ssa.Function) {
-	r.rule("C02.R5.bounds", 60, "every index / slice / fixed-width access on a byte buffer in the decoders has its upper end entailed <= len(buffer)")
+	r.rule("C02.R5.bounds", 80, "every index / slice / fixed-width access on a byte buffer in the decoders has its upper end entailed <= len(buffer), and every b[lo:hi] has lo <= hi entailed")
 	bp := newBoundsProver(c, e, scope)
 	np := 0
 	for _, m := range bp.post {
